@@ -10,7 +10,7 @@ import (
 	"verif/harness/hc"
 )
 
-func firstString(e ast.Expr) string {
+func firstString(e ast.Node) string {
 	out := ""
 	ast.Inspect(e, func(n ast.Node) bool {
 		if bl, ok := n.(*ast.BasicLit); ok && bl.Kind == token.STRING && out == "" {
